@@ -336,7 +336,10 @@ func (*Fsrv) Walk(req *SrvReq) {
 		return
 	}
 
-	nfid.F = f
+	// only a complete walk moves newfid (it may be the fid itself)
+	if i == len(tc.Wname) {
+		nfid.F = f
+	}
 	req.RespondRwalk(wqids[0:i])
 }
 
